@@ -1884,15 +1884,19 @@ static int64_t eval3(Node *node, char ***label) {
   case ND_MUL:
     return eval(node->lhs) * eval(node->rhs);
   case ND_DIV:
+  case ND_MOD: {
+    int64_t lhs = eval(node->lhs);
+    int64_t rhs = eval(node->rhs);
+    if (rhs == 0)
+      error_tok(node->tok, "division by zero in constant expression");
     if (node->ty->is_unsigned)
-      return (uint64_t)eval(node->lhs) / eval(node->rhs);
-    return eval(node->lhs) / eval(node->rhs);
+      return (node->kind == ND_DIV) ? (uint64_t)lhs / rhs : (uint64_t)lhs % rhs;
+    if (rhs == -1)
+      return (node->kind == ND_DIV) ? -(uint64_t)lhs : 0;
+    return (node->kind == ND_DIV) ? lhs / rhs : lhs % rhs;
+  }
   case ND_NEG:
     return -eval(node->lhs);
-  case ND_MOD:
-    if (node->ty->is_unsigned)
-      return (uint64_t)eval(node->lhs) % eval(node->rhs);
-    return eval(node->lhs) % eval(node->rhs);
   case ND_BITAND:
     return eval(node->lhs) & eval(node->rhs);
   case ND_BITOR:
